@@ -341,3 +341,82 @@ def edges_where(b, pred):
             if pred(truth, src, a, s):
                 out.add((a, s))
     return out
+
+
+def final_uses(b, l, depth=8):
+    """Forward uses of bare local l, following plain copies/moves and `Not`:
+    [(kind, bb, detail)] with kind in 'switch' | 'callarg' | 'agg' | 'bin' | 'store' | 'ret' | 'cast' | 'ref'"""
+    out = []
+    seen = set()
+    work = [(l, False)]
+    while work:
+        cur, neg = work.pop()
+        if cur in seen:
+            continue
+        seen.add(cur)
+        for bb in sorted(b.reachable()):
+            for i, st in enumerate(b.stmts(bb)):
+                if st["k"] != "assign":
+                    continue
+                rv = st["rv"]
+                def is_cur(op):
+                    pl = op_place(op) if op else None
+                    return pl is not None and is_bare(pl) and pl["l"] == cur
+                if "use" in rv and is_cur(rv["use"]):
+                    if is_bare(st["lhs"]):
+                        if st["lhs"]["l"] == 0:
+                            out.append(("ret", bb, st))
+                        else:
+                            work.append((st["lhs"]["l"], neg))
+                    else:
+                        out.append(("store", bb, st))
+                elif "un" in rv and is_cur(rv["a"]):
+                    if rv["un"] == "Not" and is_bare(st["lhs"]):
+                        work.append((st["lhs"]["l"], not neg))
+                    else:
+                        out.append(("un", bb, st))
+                elif "bin" in rv and (is_cur(rv["a"]) or is_cur(rv["b"])):
+                    out.append(("bin", bb, st))
+                elif "cast" in rv and is_cur(rv["cast"]):
+                    out.append(("cast", bb, st))
+                elif "agg" in rv:
+                    for oi, o in enumerate(rv["ops"]):
+                        if is_cur(o):
+                            out.append(("agg", bb, (st, oi)))
+                elif "ref" in rv and rv["ref"]["l"] == cur:
+                    out.append(("ref", bb, st))
+            t = b.term(bb)
+            if t["k"] == "switch":
+                pl = op_place(t["discr"])
+                if pl is not None and is_bare(pl) and pl["l"] == cur:
+                    out.append(("switch", bb, neg))
+            elif t["k"] == "call":
+                for ai, a in enumerate(t["args"]):
+                    pl = op_place(a)
+                    if pl is not None and is_bare(pl) and pl["l"] == cur:
+                        out.append(("callarg", bb, (t, ai)))
+            elif t["k"] == "assert":
+                pl = op_place(t["cond"])
+                if pl is not None and is_bare(pl) and pl["l"] == cur:
+                    out.append(("assert", bb, t))
+    return out
+
+
+def field_reads(F, owner, name):
+    """Reads of field owner.name: [(body, bb, stmt_or_None, dest_local_or_None, access)] — for a read
+    by copy into a local the destination local is given so that its uses can be followed."""
+    out = []
+    for (b, bb, where, pl, acc) in field_accesses(F, owner, name):
+        if acc not in ("read", "move", "ref", "discr"):
+            continue
+        last = [e for e in pl["p"] if isinstance(e, dict) and "f" in e][-1]
+        if last["n"] != name:
+            continue  # a sub-field of the option field: not the field itself
+        dest = None
+        st = None
+        if where[0] == "stmt":
+            st = b.stmts(bb)[where[1]]
+            if st["k"] == "assign" and is_bare(st["lhs"]):
+                dest = st["lhs"]["l"]
+        out.append((b, bb, where, st, dest, acc))
+    return out
